@@ -85,7 +85,10 @@ fn main() {
         });
     watchdog(wd, id.clone());
     let mut ctx = Ctx::new(&id, tier, seed, replay);
-    match id.as_str() {
+    // A panic that escapes a phase (for instance close() on a server whose accept loop has died)
+    // must not turn into exit code 101: what the phases recorded so far is still reported, and if
+    // nothing was recorded the run is inconclusive (exit 2), never a silent pass.
+    let outcome = std::panic::catch_unwind(std::panic::AssertUnwindSafe(|| match id.as_str() {
         "C01" => vlib::routing::run(&mut ctx, vlib::routing::Mode::C01),
         "C02" => vlib::c02::run(&mut ctx),
         "C03" => vlib::c03::run(&mut ctx),
@@ -109,6 +112,10 @@ fn main() {
             eprintln!("unknown property {}", id);
             std::process::exit(2);
         }
+    }));
+    if let Err(e) = outcome {
+        let msg = e.downcast_ref::<&str>().map(|s| s.to_string()).or_else(|| e.downcast_ref::<String>().cloned()).unwrap_or_else(|| "<non-string panic>".into());
+        ctx.harness_error(format!("a panic escaped the phases: {}", msg));
     }
     let code = ctx.finish();
     std::process::exit(code);
